@@ -12,6 +12,7 @@ import BBProofs.RefPolicy
 import BBProofs.Exact
 import BBProofs.GenEq
 import BBProofs.GenEq3
+import BBProofs.GenEq6
 
 namespace BB
 
@@ -200,5 +201,25 @@ theorem C02_code_merge_exact (expf : Rat → Rat) (D : Nat → Row) (m : MergeFn
             Nat.mul_le_mul (by omega) (by omega)
         _ < 2 ^ 64 := hb
   exact C02_code_merge expf D m thr c s child scent schild hc hs hlen (by omega) hnew hold hO
+
+
+/-- code: **rebuilding from a saved buffer keeps the summary exact** — re-importing the buffer and member list of an exact
+summary (what `_fit_buffers`, `recluster_inplace`, `refine_inplace` and every tree-merging round do) passes the pairing
+check and yields the object of that very summary: same count, sums, width, member list, and the majority-vote centroid -/
+theorem C02_code_reimport (expf : Rat → Rat) (D : Nat → Row) (c : Clu) (wi : W) (nf : PV)
+    (hc : Exact D c) (hn : c.n < 2 ^ 53) :
+    BBGen._BFSubcluster_init expf PV.pynone (PV.arr wi c.ids) nf (bufOf c) (PV.bool true)
+      = PV.pynone :: stateOf c PV.pynone := by
+  have h := gen_subcluster_init_buffer expf c.w c.ls c.n c.ids wi nf true (exact_sum_le D c hc) hn
+  unfold bufOf
+  rw [h]
+  have hlen : ¬ (true = true ∧ c.ids.length ≠ c.n) := by
+    rintro ⟨_, hne⟩; exact hne hc.n_eq.symm
+  have : Clu.ofBuffer c.w c.ls c.n c.ids = c := by
+    cases c
+    simp only [Clu.ofBuffer] at *
+    congr 1
+    exact hc.cent_eq.symm
+  rw [this, if_neg hlen]
 
 end BB
